@@ -63,7 +63,7 @@ prop(
 
 prop(
     "C05",
-    ["contracts.c05_pipeline", "contracts.c04_partial", "contracts.c19_mapping"],
+    ["contracts.c05_pipeline", "contracts.c04_partial", "contracts.c19_mapping", "contracts.c18_registration"],
     "other",
     "contract-based deductive verification of the three links between a YAML pipeline section and the chain: yaml_constructor.factory_constructor (node kind -> factory call, deep=eager handed on), PipelineTranslator.translate_hierarchy (proved per pipeline shape: lengths 1..3 over every assignment of template / legacy elements, against the interface contracts of >> (C04) and of translation (C19)), load_pipeline; the end-to-end run through real PyYAML is a BOUNDED stand-in",
     "proved: a mapping / sequence / bare tag becomes factory(**items) / factory(*items) / factory() with exactly the loader's data; the pipeline is walked last to first, the last element constructed without target, every earlier element bound to the object built for the next one (>> for templates, target= for legacy mappings), each exactly once, results in configuration order; any element's failure propagates unchanged; non-pipeline structures are delegated with the same location and keywords; bounded: real YAML text end to end",
@@ -184,7 +184,7 @@ prop(
 
 prop(
     "C14",
-    ["contracts.c14_config"],
+    ["contracts.c14_config", "contracts.c18_registration"],
     "proof",
     "contract-based deductive verification: trace contract on load_configuration with a counting fold (position of each digest call = number of present plugins before it), loop invariant over the plugin sequence",
     "load_configuration: validation before any plugin runs, exactly-once / in-order / exact-content digestion are proved for every plugin sequence and every configuration mapping; load_section_plugins' ordering under before/after constraints (incl. constraints naming absent plugins) is covered by a BOUNDED stand-in, reported separately",
@@ -248,10 +248,10 @@ prop(
 
 prop(
     "C18",
-    ["contracts.c14_config", "contracts.c18_yaml"],
+    ["contracts.c14_config", "contracts.c18_yaml", "contracts.c18_registration"],
     "other",
     "contract-based deductive verification of the WIRING (which loader class reads the document, which constructors it can gain) - obligations decided on the AST and by the VC generator; the universal claim over documents rests on the assumed PyYAML safe-loader contract",
-    "wiring proved: the configuration loader derives only from yaml.SafeLoader, gains constructors only in add_constructor_plugins under '!'+name tags with yaml_constructor(plugin factory), load() reads YAML only through that loader, yaml.load_configuration takes the data only from loader(stream).get_single_data(); no permissive PyYAML entry point is named anywhere in src. The quantifier over all documents is ASSUMED of PyYAML (SafeLoader raises ConstructorError for every other tag before importing or calling anything) and is only probed by a corpus of python/* documents",
+    "wiring proved: the configuration loader derives only from yaml.SafeLoader, gains constructors only in add_constructor_plugins - which is itself under contract: for every entry point, in order, exactly one add_constructor on the loader passed in, under '!'+name, with yaml_constructor(the plugin's .s factory or the plugin, eager=its tag settings), a name starting with '!' is a RuntimeError -, load() reads YAML only through that loader, yaml.load_configuration takes the data only from loader(stream).get_single_data(); no permissive PyYAML entry point is named anywhere in src. The quantifier over all documents is ASSUMED of PyYAML (SafeLoader raises ConstructorError for every other tag before importing or calling anything) and is only probed by a corpus of python/* documents",
     "trusted: the PyYAML safe-loader contract carries the universal quantifier; pyvc's AST resolution of names/imports",
     trusted=["ASSUMED (carries the quantifier over documents): a loader whose constructor tables are SafeLoader's plus add_constructor entries constructs objects only through those entries and raises ConstructorError for every other tag, incl. every tag:yaml.org,2002:python/*, before importing or calling anything the tag names - EXCEPT for a tag on a mapping that is the value (or an item of the sequence value) of a merge key `<<`: flatten_mapping merges it by node kind and ignores the tag (accepted, nothing instantiated; known finding C18-merge-key-value-tag-is-ignored)",
              "PROBE (not proof): a corpus of python/* documents at top level, inside the pipeline and nested in a registered tag's arguments is loaded through the real load() with canaries, see coverage.bounded"],
